@@ -247,8 +247,7 @@ theorem readToken_ident (s rest : List Char) (eofok : Bool) (hs : identLike s) (
 theorem qualified_name_same (vt : GoTy) (pkg nm rest : List Char) (hp : identLike pkg) (hn : identLike nm)
     (hrest : stopsIdent rest) (hnodot : ∀ r, rest ≠ '.' :: r)
     (hkw1 : isKeyword .strct pkg = false) (hkw2 : isKeyword .strct nm = false)
-    (hend : ∃ tok sp, readToken rest true = some (tok, sp) ∧ (tok = [] ∨ tok = [':'] ∨ tok = ['>']))
-    (hnamed : vt.name ≠ "") :
+    (hend : ∃ tok sp, readToken rest true = some (tok, sp) ∧ (tok = [] ∨ tok = [':'] ∨ tok = ['>'])) :
     matchAnnot vt .strct (pkg ++ '.' :: nm ++ rest) = matchAnnot vt .strct (nm ++ rest) := by
   obtain ⟨tok, sp, htok, htokshape⟩ := hend
   have hdot : stopsIdent ('.' :: (nm ++ rest)) := by
@@ -263,21 +262,20 @@ theorem qualified_name_same (vt : GoTy) (pkg nm rest : List Char) (hp : identLik
   have e2 : readToken (nm ++ rest) false = some (nm, rest) := readToken_ident nm rest false hn hrest
   have e3 : readToken ('.' :: (nm ++ rest)) true = some (['.'], nm ++ rest) := by
     simp [readToken, List.dropWhile, isGoSpace, isIdent0]
-  have hname : (vt.name == "" && vt.isStructKind) = false := by
-    simp [hnamed]
   unfold matchAnnot
   simp only [e1, e2, hkw1, hkw2, Bool.false_eq_true, ↓reduceIte]
   obtain ⟨c1, r1, rfl, hc1⟩ := hp0
   obtain ⟨c2, r2, rfl, hc2⟩ := hn0
   simp only [hc1, hc2, Bool.not_true, Bool.false_eq_true, ↓reduceIte]
   have d1 : doMatchStruct vt ('.' :: (c2 :: r2 ++ rest)) (c1 :: r1) =
-      some (String.ofList (c2 :: r2) == vt.name, rest) := by
+      some ((vt.name == "" && vt.isStructKind) || String.ofList (c2 :: r2) == vt.name, rest) := by
     unfold doMatchStruct
-    simp only [e3, hname, Bool.false_eq_true, ↓reduceIte, e2]
+    simp only [e3, Bool.false_eq_true, ↓reduceIte, e2]
     simp [hc2]
-  have d2 : doMatchStruct vt rest (c2 :: r2) = some (String.ofList (c2 :: r2) == vt.name, rest) := by
+  have d2 : doMatchStruct vt rest (c2 :: r2) =
+      some ((vt.name == "" && vt.isStructKind) || String.ofList (c2 :: r2) == vt.name, rest) := by
     unfold doMatchStruct
-    simp only [htok, hname, Bool.false_eq_true, ↓reduceIte]
+    simp only [htok, Bool.false_eq_true, ↓reduceIte]
     rcases htokshape with rfl | rfl | rfl <;> simp
   rw [d1, d2]
 
